@@ -231,6 +231,17 @@ pub fn string_cases() -> Vec<(String, Vec<u8>, &'static str)>
 	{
 		push(format!("\"{raw}\""), "raw utf-8");
 	}
+	// every ordered pair of escape forms in one literal, adjacent and with a character in between
+	// (state of the lexer that outlives one escape would show here)
+	let forms = ["\\x41", "\\xe9", "\\x00", "\\n", "\\\\", "\\0", "\\u{e9}", "\\u{20ac}", "\\u{10ffff}", "\\u{41}", "\\u{0}", "\u{e9}", "a"];
+	for e1 in forms
+	{
+		for e2 in forms
+		{
+			push(format!("\"{e1}{e2}\""), "pair of escapes");
+			push(format!("\"{e1}-{e2}\""), "pair of escapes");
+		}
+	}
 	push("\"\"".to_string(), "empty");
 	push("\"Save up to \\u{20ac}50 or \\xA350 or more!\\0\"".to_string(), "mixed");
 	let mut out = v;
